@@ -395,6 +395,11 @@ struct event_base {
 
 	/** "Prepare" and "check" watchers. */
 	struct evwatch_list watchers[EVWATCH_MAX];
+	/** While event_base_loop() is invoking the watchers of a type: the
+	 * watcher it will invoke next (NULL otherwise).  evwatch_free() advances
+	 * it, so that a watcher callback may free any watcher, including the
+	 * running one and the next one. */
+	struct evwatch *watcher_next[EVWATCH_MAX];
 };
 
 struct event_config_entry {
